@@ -209,6 +209,50 @@ func lex(src string) (out []lexeme, errs int) {
 	return out, s.ErrorCount
 }
 
+// significant: the token texts that a tree must account for (literals normalised to their values).
+func significant(lx []lexeme) []string {
+	var out []string
+	for _, l := range lx {
+		switch {
+		case l.text == ";" || l.text == ",":
+			continue
+		case l.tok == scanner.Int:
+			if v, err := strconv.ParseInt(strings.ReplaceAll(l.text, "_", ""), 0, 64); err == nil {
+				out = append(out, fmt.Sprintf("int:%d", v))
+				continue
+			}
+		case l.tok == scanner.String:
+			if u, err := strconv.Unquote(l.text); err == nil {
+				out = append(out, "str:"+u)
+				continue
+			}
+		}
+		out = append(out, l.text)
+	}
+	// an empty `import ( )` / `options ( )` block declares nothing and has no tree node: the printer omits it
+	var res []string
+	for i := 0; i < len(out); i++ {
+		if (out[i] == "import" || out[i] == "options") && i+2 < len(out) && out[i+1] == "(" && out[i+2] == ")" {
+			i += 2
+			continue
+		}
+		res = append(res, out[i])
+	}
+	return res
+}
+
+func equalStrings(a, b []string) bool {
+	if len(a) != len(b) {
+		return false
+	}
+	for i := range a {
+		if a[i] != b[i] {
+			return false
+		}
+	}
+	return true
+}
+
 // arbitrary: any text must give an error or a tree that re-prints to a fixed point and whose integers and
 // strings are the values of the source lexemes.
 func (c *c15s) arbitrary(src, what string) {
@@ -264,6 +308,24 @@ func (c *c15s) arbitrary(src, what string) {
 	}
 	// fixed point
 	src2, _ := vh.Render(f, vh.Layout{Sep: " ", Comment: -1})
+	// token conservation: the tree re-prints to the token sequence of the source (comments and the optional
+	// separators ';' and ',' aside; integers and strings by value): no source token is silently dropped
+	if a, b := significant(lx), significant(func() []lexeme { l, _ := lex(src2); return l }()); !equalStrings(a, b) {
+		i := 0
+		for i < len(a) && i < len(b) && a[i] == b[i] {
+			i++
+		}
+		ta, tb := "<end>", "<end>"
+		if i < len(a) {
+			ta = a[i]
+		}
+		if i < len(b) {
+			tb = b[i]
+		}
+		c.r.Violate("accepted text and its tree differ in their token sequence (a source token is dropped or changed): source "+sigOfS(ta)+" tree "+sigOfS(tb),
+			fmt.Sprintf("%s\nsource: %q\nre-printed tree: %q\nfirst difference at significant token %d: source has %s, tree has %s", what, src, src2, i, ta, tb), c15replay{"arbitrary", src})
+		return
+	}
 	f2, err2, pan2 := vh.Parse(src2)
 	if pan2 != "" || err2 != nil || vh.Dump(f2) != vh.Dump(f) {
 		c.r.Violate("accepted text does not re-print to a fixed point", fmt.Sprintf("%s\nsource: %q\nre-printed: %q\nerr=%v", what, src, src2, err2), c15replay{"arbitrary", src})
